@@ -6,7 +6,7 @@ from gen.util import lib_vs_model, rbytes, short
 NEEDS = dict(cli=True, harness=True, shim=False, release=False)
 RULE = ("seeds of length 0,1,16,32,64,65,128 and random; depth 1..10; indices from {0,1,2,44,60,255,256,65535,65536,2^24,"
         "2^31-2,2^31-1} and random, hardened and normal; every hardened/normal pattern of depth <= 4; BIP-32 test vectors 1-3 "
-        "(private keys); CLI export --hd-path for a sample; a case is distinct by (seed, path)")
+        "(private keys); families of related paths of one seed (prefixes, siblings, extensions) derived again in chosen orders inside one process; CLI export --hd-path for a sample; a case is distinct by (seed, path)")
 TRUSTED = ["C03: HMAC-SHA512 (Prim/Hmac.v) and secp256k1 point multiplication (Prim/Secp256k1.v) are executable Gallina "
            "re-implementations validated by vectors and this differential run, opaque to the theorems",
            "C03: k256 SecretKey::from_slice / scalar addition semantics as stated in Model/Bip32.v"]
@@ -61,6 +61,19 @@ def run(ctx):
         comps = [(rng.randrange(2), rng.choice(IDX + [rng.randrange(B31)] * 3)) for _ in range(depth)]
         cases.append((rbytes(rng, rng.choice([16, 32, 64])), comps, "random/depth%d" % depth, None))
 
+    # families of related paths of ONE seed (a path, all its prefixes, siblings, extensions): each is checked against the model
+    # below like any other case, and afterwards derived again in chosen orders inside one process (see `sequences`)
+    families = []
+    for _ in range(4 if not thorough else 16):
+        s = rbytes(rng, rng.choice([16, 32, 64]))
+        base = [(1, 44), (1, 60), (1, rng.randrange(3)), (0, 0), (0, rng.randrange(5))] if rng.random() < 0.5 else \
+               [(rng.randrange(2), rng.choice(IDX[:6] + [rng.randrange(B31)])) for _ in range(rng.randrange(3, 7))]
+        fam = [base[:k] for k in range(1, len(base) + 1)]
+        fam += [base[:-1] + [(base[-1][0], base[-1][1] + 1)], base[:-1] + [(1 - base[-1][0], base[-1][1])], base + [(0, 0)], base + [(1, 0)],
+                base[:-2] + [(base[-2][0], base[-2][1] + 1), base[-1]]]
+        families.append((s, fam))
+        for c in fam:
+            cases.append((s, c, "related-paths-of-one-seed", None))
     deep = []
     for depth in (64, 255, 256, 257, 300, 1000):
         comps = [(1, rng.choice([0, 1, B31 - 1, rng.randrange(B31)])) for _ in range(depth)]
@@ -90,6 +103,23 @@ def run(ctx):
             ctx.violation("never-other-key", case, ref and hex(ref), r.fields[0].hex())
         if r.tag == "err" and ref is not None:
             ctx.violation("spurious-error", case, hex(ref), r.msg[:200])
+    # the same calls again, now in chosen orders inside one process: a deep path first and then its prefixes from the longest to
+    # the shortest, siblings after one another, the whole family shuffled, one family after another seed's family
+    ref = {("derive", s_, text_of(c_)): r_ for (s_, c_, _, _), r_ in zip(cases, impl)}
+    sequences = []
+    for s_, fam in families:
+        calls = [("derive", s_, text_of(c_)) for c_ in fam]
+        full = calls[len(fam) - 6]  # the base path itself
+        sequences.append([full] + calls[:len(fam) - 6][::-1] + calls[len(fam) - 5:] + [full])
+        sequences.append(calls + calls[::-1])
+        sh = calls * 2
+        rng.shuffle(sh)
+        sequences.append(sh)
+    if len(families) >= 2:
+        a = [("derive", families[0][0], text_of(c_)) for c_ in families[0][1]]
+        b = [("derive", families[1][0], text_of(c_)) for c_ in families[1][1]]
+        sequences.append([x for pair in zip(a, b) for x in pair] + a[::-1])
+    ctx.history_independence(sequences, ref, clause="derive-depends-on-earlier-derivations")
     # unusual but accepted index spellings (leading zeros, '+'): if the path text is accepted it derives the key of the same integers
     sp = []
     for _ in range(24):
